@@ -379,3 +379,323 @@ Proof.
   - destruct ps; auto with noerr. apply enc_pes_header_no_err.
   - intros [hi n]. cbv zeta. destruct (_ <? 0); auto with noerr.
 Qed.
+
+(* ================= Part 3: the Muxer ================= *)
+Require Import Spec.MuxSpec.
+
+(* ---------------- esContexts as an association list ---------------- *)
+
+Lemma es_find_cons q c l pid : es_find pid ((q, c) :: l) = if q =? pid then Some c else es_find pid l.
+Proof. unfold es_find. cbn [find fst]. destruct (q =? pid); reflexivity. Qed.
+
+Lemma es_mem_cons q c l pid : es_mem pid ((q, c) :: l) = (q =? pid) || es_mem pid l.
+Proof. reflexivity. Qed.
+
+Lemma es_mem_find pid l : es_mem pid l = match es_find pid l with Some _ => true | None => false end.
+Proof.
+  induction l as [|[q c] l IH]; [reflexivity|]. rewrite es_mem_cons, es_find_cons, IH.
+  destruct (q =? pid); reflexivity.
+Qed.
+
+Lemma es_find_map pid q c l :
+  es_find pid (map (fun p : Z * esctx => if fst p =? q then (q, c) else p) l) =
+  if q =? pid then (if es_mem q l then Some c else None) else es_find pid l.
+Proof.
+  induction l as [|[r d] l IH].
+  - cbn. destruct (q =? pid); reflexivity.
+  - cbn [map fst]. rewrite es_mem_cons. destruct (r =? q) eqn:Erq.
+    + apply Z.eqb_eq in Erq. subst r. rewrite !es_find_cons, IH. cbn [orb]. destruct (q =? pid); reflexivity.
+    + rewrite !es_find_cons, IH. cbn [orb]. destruct (q =? pid) eqn:Eqp; [|reflexivity].
+      apply Z.eqb_eq in Eqp. subst pid. rewrite Erq. reflexivity.
+Qed.
+
+Lemma es_find_app_single pid q c l :
+  es_find pid (l ++ [(q, c)]) = match es_find pid l with Some x => Some x | None => if q =? pid then Some c else None end.
+Proof.
+  induction l as [|[r d] l IH].
+  - cbn [app]. rewrite es_find_cons. destruct (q =? pid); reflexivity.
+  - cbn [app]. rewrite !es_find_cons, IH. destruct (r =? pid); reflexivity.
+Qed.
+
+Lemma es_find_put pid q c l : es_find pid (es_put q c l) = if q =? pid then Some c else es_find pid l.
+Proof.
+  unfold es_put. destruct (es_mem q l) eqn:E.
+  - rewrite es_find_map, E. reflexivity.
+  - rewrite es_find_app_single. destruct (q =? pid) eqn:Eqp.
+    + apply Z.eqb_eq in Eqp. subst pid. rewrite es_mem_find in E. destruct (es_find q l); [discriminate|reflexivity].
+    + destruct (es_find pid l); reflexivity.
+Qed.
+
+Lemma es_find_del pid q l : es_find pid (es_del q l) = if q =? pid then None else es_find pid l.
+Proof.
+  induction l as [|[r d] l IH].
+  - cbn. destruct (q =? pid); reflexivity.
+  - unfold es_del in *. cbn [filter fst]. destruct (r =? q) eqn:Erq; cbn [negb].
+    + rewrite IH, es_find_cons. apply Z.eqb_eq in Erq. subst r. destruct (q =? pid); reflexivity.
+    + rewrite !es_find_cons, IH. destruct (r =? pid) eqn:Erp; [|reflexivity].
+      destruct (q =? pid) eqn:Eqp; [|reflexivity]. apply Z.eqb_eq in Erp, Eqp. subst. rewrite Z.eqb_refl in Erq. discriminate.
+Qed.
+
+(* ---------------- wrapping counters ---------------- *)
+
+Definition cc_val (c : wrappingCounter) : Z := wrappingCounter_value c.
+(* a continuity counter: wraps at 15, holds 0..15 or the initial 16 *)
+Definition cc_wf (c : wrappingCounter) : Prop := wrappingCounter_wrapAt c = 15 /\ 0 <= cc_val c <= 16.
+
+Lemma inc_is_value c : wrappingCounter_inc c = cc_val (wrappingCounter_inc_st c).
+Proof. unfold wrappingCounter_inc, wrappingCounter_inc_st, cc_val. cbn. destruct (_ >? _); reflexivity. Qed.
+
+Lemma inc_st_spec c : cc_wf c ->
+  cc_wf (wrappingCounter_inc_st c) /\ 0 <= cc_val (wrappingCounter_inc_st c) <= 15 /\
+  (cc_val c <= 15 -> cc_val (wrappingCounter_inc_st c) = (cc_val c + 1) mod 16).
+Proof.
+  intros [Hw Hv]. unfold wrappingCounter_inc_st, cc_wf, cc_val in *. cbn. rewrite Hw.
+  destruct (wrappingCounter_value c + 1 >? 15) eqn:E; cbn; rewrite ?Hw.
+  - repeat split; try lia. intros H. assert (wrappingCounter_value c = 15) as -> by lia. reflexivity.
+  - repeat split; try lia. intros H. rewrite Z.mod_small; lia.
+Qed.
+
+Lemma new_cc_wf : cc_wf (newWrappingCounter cc_wrap).
+Proof. unfold cc_wf, newWrappingCounter, cc_wrap, cc_val. cbn. lia. Qed.
+
+Fixpoint iter_inc (k : nat) (c : wrappingCounter) : wrappingCounter :=
+  match k with O => c | S k' => iter_inc k' (wrappingCounter_inc_st c) end.
+
+(* the values k successive increments produce *)
+Fixpoint ccs_from (c : wrappingCounter) (k : nat) : list Z :=
+  match k with O => [] | S k' => cc_val (wrappingCounter_inc_st c) :: ccs_from (wrappingCounter_inc_st c) k' end.
+
+Lemma iter_inc_wf k : forall c, cc_wf c -> cc_wf (iter_inc k c).
+Proof. induction k as [|k IH]; intros c H; cbn [iter_inc]; [exact H|]. apply IH, inc_st_spec, H. Qed.
+
+(* successive increments form a chain, and continue one that ends at the counter's value *)
+Lemma ccs_from_chain k : forall c, cc_wf c -> chain16 (ccs_from c k).
+Proof.
+  induction k as [|k IH]; intros c H; [exact I|]. cbn [ccs_from].
+  destruct (inc_st_spec c H) as (Hwf & Hr & _). specialize (IH _ Hwf).
+  destruct k as [|k]; [exact I|]. cbn [ccs_from chain16] in *. split; [|exact IH].
+  destruct (inc_st_spec _ Hwf) as (_ & _ & E). apply E. lia.
+Qed.
+
+Lemma chain16_app_from (l : list Z) k c : cc_wf c -> chain16 l -> (l <> [] -> last l 0 = cc_val c /\ cc_val c <= 15) ->
+  chain16 (l ++ ccs_from c k).
+Proof.
+  intros Hc. revert k. induction l as [|a l IH]; intros k Hl Hlast; [apply ccs_from_chain, Hc|].
+  destruct l as [|b l].
+  - cbn [app]. destruct k as [|k]; [exact I|]. cbn [ccs_from chain16]. split; [|apply (ccs_from_chain (S k) c Hc)].
+    destruct (Hlast ltac:(discriminate)) as [Ha Hle]. cbn [last] in Ha. subst a.
+    destruct (inc_st_spec c Hc) as (_ & Hr & E). apply E, Hle.
+  - cbn [app chain16] in *. destruct Hl as [E Hl]. split; [exact E|]. apply IH; [exact Hl|].
+    intros _. apply Hlast. discriminate.
+Qed.
+
+Lemma last_ccs_from k : forall c, k <> O -> last (ccs_from c k) 0 = cc_val (iter_inc k c).
+Proof.
+  induction k as [|k IH]; intros c Hk; [congruence|]. cbn [ccs_from iter_inc].
+  destruct k as [|k]; [reflexivity|]. rewrite <- IH by discriminate. reflexivity.
+Qed.
+
+(* ---------------- adaptation field sizes ---------------- *)
+
+Lemma enc_af_extension_n afe its n : enc_af_extension afe = Ok (its, n) ->
+  n = 1 + calcPacketAdaptationFieldExtensionLength afe.
+Proof.
+  unfold enc_af_extension, calcPacketAdaptationFieldExtensionLength.
+  destruct (PacketAdaptationExtensionField_HasSeamlessSplice afe).
+  - destruct (PacketAdaptationExtensionField_DTSNextAccessUnit afe); cbn [need res_bind]; [|discriminate].
+    intros HH; okinj HH.
+    destruct (PacketAdaptationExtensionField_HasLegalTimeWindow afe), (PacketAdaptationExtensionField_HasPiecewiseRate afe); reflexivity.
+  - intros HH; okinj HH.
+    destruct (PacketAdaptationExtensionField_HasLegalTimeWindow afe), (PacketAdaptationExtensionField_HasPiecewiseRate afe); reflexivity.
+Qed.
+
+Lemma enc_af_extension_no_err afe : no_err (enc_af_extension afe).
+Proof.
+  unfold enc_af_extension. destruct (_ : bool); auto with noerr.
+  apply no_err_bind; auto with noerr.
+Qed.
+
+Lemma enc_adaptation_field_no_err af : no_err (enc_adaptation_field af).
+Proof.
+  unfold enc_adaptation_field. destruct (_ : bool); auto with noerr.
+  apply no_err_bind.
+  { destruct (_ : bool); auto with noerr. apply no_err_map; auto with noerr. }
+  intros [i1 n1]. apply no_err_bind.
+  { destruct (_ : bool); auto with noerr. apply no_err_map; auto with noerr. }
+  intros [i2 n2]. apply no_err_bind.
+  { destruct (_ : bool); auto with noerr. apply no_err_bind; auto with noerr. intros a. apply enc_af_extension_no_err. }
+  intros [i5 n5]. auto with noerr.
+Qed.
+
+Lemma enc_adaptation_field_n af its n : enc_adaptation_field af = Ok (its, n) ->
+  0 <= PacketAdaptationField_StuffingLength af -> n = packetAdaptationFieldSize af.
+Proof.
+  unfold enc_adaptation_field, packetAdaptationFieldSize. intros H Hst.
+  destruct (PacketAdaptationField_IsOneByteStuffing af); [okinj H; reflexivity|].
+  set (pcr := if PacketAdaptationField_HasPCR af then _ else _) in H.
+  assert (Hpcr : forall i k, pcr = Ok (i, k) -> k = if PacketAdaptationField_HasPCR af then C_pcrBytesSize else 0).
+  { subst pcr. destruct (PacketAdaptationField_HasPCR af).
+    - destruct (PacketAdaptationField_PCR af); cbn [need res_map]; [|discriminate]. intros i k HH; okinj HH. reflexivity.
+    - intros i k HH; okinj HH. reflexivity. }
+  destruct pcr as [[i1 n1]| |]; cbn [res_bind] in H; try discriminate.
+  set (opcr := if PacketAdaptationField_HasOPCR af then _ else _) in H.
+  assert (Hopcr : forall i k, opcr = Ok (i, k) -> k = if PacketAdaptationField_HasOPCR af then C_pcrBytesSize else 0).
+  { subst opcr. destruct (PacketAdaptationField_HasOPCR af).
+    - destruct (PacketAdaptationField_OPCR af); cbn [need res_map]; [|discriminate]. intros i k HH; okinj HH. reflexivity.
+    - intros i k HH; okinj HH. reflexivity. }
+  destruct opcr as [[i2 n2]| |]; cbn [res_bind] in H; try discriminate.
+  set (ext := if PacketAdaptationField_HasAdaptationExtensionField af then _ else _) in H.
+  assert (Hext : forall i k, ext = Ok (i, k) ->
+            k = if PacketAdaptationField_HasAdaptationExtensionField af
+                then 1 + calcPacketAdaptationFieldExtensionLength (odflt zero_PacketAdaptationExtensionField (PacketAdaptationField_AdaptationExtensionField af))
+                else 0).
+  { subst ext. destruct (PacketAdaptationField_HasAdaptationExtensionField af).
+    - destruct (PacketAdaptationField_AdaptationExtensionField af); cbn [need res_bind odflt]; [|discriminate].
+      intros i k. apply enc_af_extension_n.
+    - intros i k HH; okinj HH. reflexivity. }
+  destruct ext as [[i5 n5]| |]; cbn [res_bind] in H; try discriminate.
+  okinj H. rewrite (Hpcr _ _ eq_refl), (Hopcr _ _ eq_refl), (Hext _ _ eq_refl).
+  destruct (PacketAdaptationField_HasPCR af), (PacketAdaptationField_HasOPCR af), (PacketAdaptationField_HasSplicingCountdown af),
+    (PacketAdaptationField_HasTransportPrivateData af), (PacketAdaptationField_HasAdaptationExtensionField af); lia.
+Qed.
+
+Lemma new_stuffing_size n : 1 <= n ->
+  packetAdaptationFieldSize (newStuffingAdaptationField n) = n /\
+  0 <= PacketAdaptationField_StuffingLength (newStuffingAdaptationField n).
+Proof.
+  intros H. unfold newStuffingAdaptationField. destruct (n =? 1) eqn:E.
+  - apply Z.eqb_eq in E. subst. split; [reflexivity|cbn; lia].
+  - unfold packetAdaptationFieldSize. cbn -[Z.add Z.sub]. split; lia.
+Qed.
+
+Lemma with_stuffing_size a n : PacketAdaptationField_IsOneByteStuffing a = false ->
+  packetAdaptationFieldSize (with_stuffing a n) = packetAdaptationFieldSize a - PacketAdaptationField_StuffingLength a + n.
+Proof.
+  intros H. unfold packetAdaptationFieldSize, with_stuffing. cbn -[Z.add Z.sub calcPacketAdaptationFieldExtensionLength]. rewrite H. lia.
+Qed.
+
+(* ---------------- writePacket as WriteData uses it ---------------- *)
+
+Lemma enc_packet_af_no_err h af payload :
+  PacketHeader_HasAdaptationField h = true -> 0 <= PacketAdaptationField_StuffingLength af ->
+  packetAdaptationFieldSize af + Z.of_nat (length payload) <= 184 ->
+  no_err (enc_packet {| Packet_AdaptationField := Some af; Packet_Header := h; Packet_Payload := payload |} 188).
+Proof.
+  intros Hh Hst Hsz. unfold enc_packet. cbn [Packet_Header Packet_AdaptationField Packet_Payload]. rewrite Hh.
+  cbn [need res_bind]. destruct (PacketAdaptationField_StuffingLength af <? 0) eqn:E0; [lia|]. cbn [res_bind].
+  unfold C_mpegTsPacketHeaderSize.
+  destruct (188 - 1 - 3 - packetAdaptationFieldSize af <? Z.of_nat (length payload)) eqn:E1; [lia|].
+  destruct (enc_adaptation_field af) as [[afi afn]| |] eqn:Eaf; cbn [res_bind].
+  - pose proof (enc_adaptation_field_n _ _ _ Eaf Hst) as ->.
+    destruct (188 - (1 + 3 + packetAdaptationFieldSize af) <? Z.of_nat (length payload)) eqn:E2; [lia|]. apply no_err_ok.
+  - exfalso. eapply enc_adaptation_field_no_err; eauto.
+  - apply no_err_panic.
+Qed.
+
+Lemma enc_packet_noaf_no_err h af payload :
+  PacketHeader_HasAdaptationField h = false -> Z.of_nat (length payload) <= 184 ->
+  no_err (enc_packet {| Packet_AdaptationField := af; Packet_Header := h; Packet_Payload := payload |} 188).
+Proof.
+  intros Hh Hsz. unfold enc_packet. cbn [Packet_Header Packet_AdaptationField Packet_Payload]. rewrite Hh.
+  cbn [res_bind]. unfold C_mpegTsPacketHeaderSize.
+  destruct (188 - 1 - 3 <? Z.of_nat (length payload)) eqn:E1; [lia|]. cbn [res_bind].
+  destruct (188 - (1 + 3 + 0) <? Z.of_nat (length payload)) eqn:E2; [lia|]. apply no_err_ok.
+Qed.
+
+Definition af_size_opt (af : option PacketAdaptationField) : Z :=
+  match af with Some a => packetAdaptationFieldSize a | None => 0 end.
+Definition has_af (af : option PacketAdaptationField) : bool :=
+  match af with Some _ => true | None => false end.
+
+(* the payload packet WriteData builds is never rejected (S1: writer-internal members zero on entry) *)
+Lemma payload_packet_no_err pid ccv af ps payload rest :
+  af_entry_ok af ->
+  rest = 188 - (4 + af_size_opt af) - Z.of_nat (length payload) -> 0 <= rest ->
+  no_err (enc_packet {| Packet_AdaptationField := if rest >? 0 then Some (stuffed af rest) else af;
+                        Packet_Header := mk_header pid ccv (has_af af || (rest >? 0)) true ps;
+                        Packet_Payload := payload |} 188).
+Proof.
+  intros Hen Hrest Hr. destruct af as [a|]; cbn [af_size_opt has_af af_entry_ok stuffed orb] in *.
+  - destruct Hen as [Hs Hone]. destruct (rest >? 0) eqn:E.
+    + apply enc_packet_af_no_err; [reflexivity| |].
+      * unfold with_stuffing. cbn [PacketAdaptationField_StuffingLength]. lia.
+      * rewrite with_stuffing_size by exact Hone. lia.
+    + apply enc_packet_af_no_err; [reflexivity|lia|lia].
+  - destruct (rest >? 0) eqn:E.
+    + destruct (new_stuffing_size rest ltac:(lia)) as [Hsz Hst].
+      apply enc_packet_af_no_err; [reflexivity|exact Hst|lia].
+    + apply enc_packet_noaf_no_err; [reflexivity|lia].
+Qed.
+
+Lemma emit_packet_cases p :
+  (exists its, enc_packet p 188 = Ok its /\ emit_packet p = mk_pkt_out (Ok 188) (chunks_of its) [p]) \/
+  (exists c, enc_packet p 188 = Err c /\ emit_packet p = mk_pkt_out (Err c) [] []) \/
+  (enc_packet p 188 = Panic /\ emit_packet p = mk_pkt_out Panic [] []).
+Proof.
+  unfold emit_packet, C_MpegTsPacketSize. destruct (enc_packet p 188) as [its|c|].
+  - left. eexists; split; reflexivity.
+  - right; left. eexists; split; reflexivity.
+  - right; right. split; reflexivity.
+Qed.
+
+(* ---------------- the packetisation loop of WriteData ---------------- *)
+
+Lemma payload_ccs_app pid a b : payload_ccs pid (a ++ b) = payload_ccs pid a ++ payload_ccs pid b.
+Proof. unfold payload_ccs. rewrite filter_app, map_app. reflexivity. Qed.
+
+Lemma payload_ccs_other pid q pkts : Forall (fun p => pkt_pid p = q) pkts -> pid <> q -> payload_ccs pid pkts = [].
+Proof.
+  intros H Hne. unfold payload_ccs. induction H as [|p l Hp _ IH]; [reflexivity|].
+  cbn [filter]. rewrite Hp. destruct (q =? pid) eqn:E; [lia|]. rewrite andb_false_r. exact IH.
+Qed.
+
+Lemma wd_loop_spec fuel : forall pid h cc af ps left,
+  cc_wf cc -> af_entry_ok af ->
+  let r := wd_loop fuel pid h cc af ps left in
+  pa_res (lo_part r) <> Panic ->
+  exists k, payload_ccs pid (pa_pkts (lo_part r)) = ccs_from cc k /\ lo_cc r = iter_inc k cc /\
+            Forall (fun p => pkt_pid p = pid) (pa_pkts (lo_part r)).
+Proof.
+  induction fuel as [|fuel IH]; intros pid h cc af ps left Hcc Haf; cbn zeta.
+  - destruct left; cbn [wd_loop lo_stop lo_part pa_res pa_pkts lo_cc]; intros Hp; [|congruence].
+    exists O. repeat split; constructor.
+  - destruct left as [|b0 left']; [intros _; exists O; repeat split; constructor|].
+    cbn [wd_loop]. set (left := b0 :: left') in *.
+    set (avail := C_MpegTsPacketSize - _).
+    destruct (ps && (avail <? _)) eqn:Ebranch.
+    + (* adaptation field only *)
+      match goal with |- context [emit_packet ?p] => destruct (emit_packet_cases p) as [(its & E & ->)|[(c & E & ->)|(E & ->)]] end;
+        cbn [po_res po_group po_pkt].
+      * intros Hp. destruct (IH pid h cc None ps left Hcc I) as (k & Hk1 & Hk2 & Hk3).
+        { exact Hp. }
+        exists k. cbn [lo_cons lo_part pa_pkts lo_cc] in *. repeat split.
+        -- rewrite payload_ccs_app. unfold payload_ccs at 1. cbn [filter pkt_has_payload Packet_Header mk_header PacketHeader_HasPayload andb map app]. exact Hk1.
+        -- exact Hk2.
+        -- constructor; [reflexivity|exact Hk3].
+      * intros _. exists O. cbn [lo_stop lo_part pa_pkts lo_cc]. repeat split; constructor.
+      * cbn [lo_stop lo_part pa_res]. congruence.
+    + (* payload packet *)
+      destruct (write_pes_data h left ps avail) as [[[items ntot] npayload]|c|] eqn:Ew.
+      * destruct (write_pes_data_ok _ _ _ _ _ _ _ Ew) as (Hbits & Hnp & Hnt & _ & _ & _).
+        pose proof (items_len_bits _ _ Hbits) as Hlen.
+        destruct (inc_st_spec cc Hcc) as (Hwf' & Hr' & _).
+        match goal with |- context [emit_packet ?p] => destruct (emit_packet_cases p) as [(its & E & ->)|[(c & E & ->)|(E & ->)]] end;
+          cbn [po_res po_group po_pkt].
+        -- intros Hp. destruct (IH pid h (wrappingCounter_inc_st cc) None false (skipn (Z.to_nat npayload) left) Hwf' I) as (k & Hk1 & Hk2 & Hk3).
+           { exact Hp. }
+           exists (S k). cbn [lo_cons lo_part pa_pkts lo_cc ccs_from iter_inc] in *. repeat split.
+           ++ rewrite payload_ccs_app. unfold payload_ccs at 1.
+              cbn [filter pkt_has_payload pkt_pid Packet_Header mk_header PacketHeader_HasPayload PacketHeader_PID andb map app].
+              rewrite Z.eqb_refl. cbn [map app]. rewrite Hk1. f_equal.
+              unfold pkt_cc. cbn [Packet_Header mk_header PacketHeader_ContinuityCounter]. rewrite inc_is_value.
+              rewrite (Z.mod_small _ 256) by lia. apply Z.mod_small. lia.
+           ++ exact Hk2.
+           ++ constructor; [reflexivity|exact Hk3].
+        -- exfalso. revert E. subst avail.
+           apply (payload_packet_no_err pid (wrappingCounter_inc cc) af ps (bytes_of_items items)); [exact Haf| |].
+           ++ destruct af; cbn [af_size_opt]; unfold C_MpegTsPacketSize, C_mpegTsPacketHeaderSize; lia.
+           ++ destruct af; cbn [af_size_opt]; unfold C_MpegTsPacketSize, C_mpegTsPacketHeaderSize in *; lia.
+        -- cbn [lo_stop lo_part pa_res]. congruence.
+      * exfalso. eapply write_pes_data_no_err; eauto.
+      * cbn [lo_stop lo_part pa_res]. congruence.
+Qed.
